@@ -282,8 +282,19 @@ def iteration_end_harness(w, rounds):
         md.set('network', Ref([net], 0))
         holder = [op]
         ex.call_function(setup, [Ref(holder, 0), Ref([md], 0)])
-        out = hlib.drive(ex, nxt, holder, len(script) + 2)
-        sent = [e for _, b in net.sender.sent for e in b]
+        if ex.env.get('native'):
+            txt = hlib.native_run(ex, 'iteration_end', [], script)
+            if '||' not in txt:
+                raise Unsupported('native iteration_end output: ' + txt)
+            a, b = txt.split('||', 1)
+            if 'OVERRUN' in a.split():
+                raise Violation('IterationEnd does not terminate on this input (native run overran)', hlib._wit(ex))
+            out = [hlib.se('Item', unit()) if t == 'I()' else hlib.parse_token(t) for t in a.split()]
+            sent = [hlib.parse_token(t) for t in b.split()]
+            ex.env['last_output'] = out
+        else:
+            out = hlib.drive(ex, nxt, holder, len(script) + 2)
+            sent = [e for _, b in net.sender.sent for e in b]
         sx = lambda: {'script': [repr(e) for e in script], 'sent': [repr(e) for e in sent]}
         want = []
         for r in range(rounds):
@@ -401,6 +412,46 @@ class FeedbackRx(PyObj):
         return NotImplemented
 
 
+
+def _native_loop(ex, kind, script, rounds, outer):
+    """public-API replay of a whole loop (replay kinds `pipe_replay` / `pipe_iterate`, SPEC sixth batch): the real job on
+    the input items of the witness for the witness' number of rounds, compared with the sequential fixed point.
+    The body / folds / condition are the fixed ones of the driver; timestamps, watermarks and nested loops are not
+    reproduced (nested: inconclusive)."""
+    from mirsym.executor import RustPanic
+    if outer != 1:
+        raise Unsupported('native loop replay covers a single (not nested) loop only')
+    M = (1 << 64) - 1
+    xs = [hlib.concrete_int(ex, e.fields[0]) for e in script if e.variant in ('Item', 'Timestamped')]
+    r = rounds[0]
+    runner, prof = ex.env['native']
+    ex.env['native_used'] = True
+    res = {}
+    for par in (1, 2, 3):
+        txt = runner(kind, [par, r, len(xs)] + xs)[prof]
+        res[par] = txt
+        ex.env['native_out'] = res
+        if txt == 'PANIC':
+            raise RustPanic('the real %s job panicked (parallelism %d)' % (kind, par))
+        if txt.startswith(('BADARGS', 'UNKNOWN', 'NORESULT')):
+            raise Unsupported('native driver: ' + txt)
+        if txt.startswith('TIMEOUT'):
+            raise Violation('the real %s job does not terminate (parallelism %d, %d rounds, input %s)' % (kind, par, r, xs), hlib._wit(ex))
+        value, cur = 0, list(xs)
+        for k in range(r):
+            if kind == 'pipe_replay':
+                body = [(x * 31 + value) & M for x in xs]
+            else:
+                cur = [(x + value + 1) & M for x in cur]
+                body = cur
+            value = (value + sum(body)) & M
+        want = str(value) if kind == 'pipe_replay' else '%d || %s' % (value, ' '.join(map(str, sorted(cur))) or '-')
+        if ' '.join(txt.split()) != want:
+            raise Violation('the real %s job (parallelism %d, %d rounds, input %s) yields "%s", the sequential fixed point is '
+                            '"%s"' % (kind, par, r, xs, txt, want), hlib._wit(ex))
+    return {'native': res}
+
+
 def replay_harness(w, outer, max_len, max_rounds):
     nxt = w.impls[('Operator', 'Replay')]['next'][0]
     hlib.check_se_table(w)
@@ -416,6 +467,8 @@ def replay_harness(w, outer, max_len, max_rounds):
             for k in range(r - 1):
                 msgs.append(('Continue', ex.fresh_int('u64', 'state_%d_%d' % (o, k))))
             msgs.append(('Finished', ex.fresh_int('u64', 'state_%d_final' % o)))
+        if ex.env.get('native'):
+            return _native_loop(ex, 'pipe_replay', script, rounds, outer)
         lock = hlib.mk_struct(w, 'IterationStateLock', generation=MutexModel(Int('usize', 0)), cond_var=Opaque('Condvar'))
         lock_holder = [lock]
         handle = StateHandleStub(lock_holder)
@@ -592,6 +645,8 @@ def iterate_harness(w, max_len, max_rounds, outer=1):
                 nid += 10
                 feedbacks.append([[e] for e in fb])
                 states.append(('Continue' if k < r - 1 else 'Finished', ex.fresh_int('u64', 'state_%d_%d' % (o, k))))
+        if ex.env.get('native'):
+            return _native_loop(ex, 'pipe_iterate', script, rounds, outer)
         feedbacks_copy = [[list(b) for b in f] for f in feedbacks]
         env = IterEnv(w, inputs, feedbacks, states)
         lock = hlib.mk_struct(w, 'IterationStateLock', generation=MutexModel(Int('usize', 0)), cond_var=Opaque('Condvar'))
